@@ -78,4 +78,48 @@ def realHeight (t : Tree α) : Nat :=
   | some n => n.realHeight
 
 end Tree
+
+/-- a concrete non-trivial well-formed tree (used as the non-vacuity witness of
+every `t.WF` hypothesis in Props/C50.lean): keys "" , "a", "a\x00" -/
+def exTree : Tree Nat :=
+  ⟨some (.inner [97] 2 3 (.leaf [] 1) (.inner [97, 0] 1 2 (.leaf [97] 2) (.leaf [97, 0] 3)))⟩
+
+/-! ## Histories -/
+
+/-- a mutating operation of the package -/
+inductive Op (α : Type) where
+  | set (k : Key) (v : α)
+  | remove (k : Key)
+
+namespace OMap
+/-- the ordered map after one operation -/
+def apply {α : Type} (m : List (Key × α)) : Op α → List (Key × α)
+  | .set k v => insert k v m
+  | .remove k => erase k m
+
+/-- the ordered map after a history -/
+def run {α : Type} (m : List (Key × α)) (ops : List (Op α)) : List (Key × α) :=
+  ops.foldl apply m
+end OMap
+
+namespace Tree
+variable {α : Type}
+
+/-- the tree after one operation (a Go panic aborts) -/
+def apply (t : Tree α) : Op α → Except Pan (Tree α)
+  | .set k v => match t.set k v with
+    | .ok (t', _) => .ok t'
+    | .error e => .error e
+  | .remove k => match t.remove k with
+    | .ok (t', _, _) => .ok t'
+    | .error e => .error e
+
+/-- the tree after a history -/
+def run (t : Tree α) : List (Op α) → Except Pan (Tree α)
+  | [] => .ok t
+  | op :: ops => match t.apply op with
+    | .ok t' => t'.run ops
+    | .error e => .error e
+
+end Tree
 end GnoVerif.C50
